@@ -1336,7 +1336,7 @@ def c18(a):
             if "[F6:" in verdict and vlib.finding_open("F6"):
                 stats["known"] += 1
                 v.known_finding("F6", "differentiation folds integer literals with integer arithmetic (quotient rule: 2/4 = 0) and applies "
-                                      "ln to integer bases: programs with an integer literal next to / or ^")
+                                      "ln to integer bases: programs with an integer literal next to / or ^, or with a variable exponent evaluated at integer coordinates")
                 continue
             if "[F10:" in verdict and vlib.finding_open("F10"):
                 stats["known"] += 1
